@@ -175,11 +175,17 @@ Fixpoint flookup (tbl : ftable) (s : str) : option (option num) :=
   | (k, v) :: t => if str_eqb k s then Some v else flookup t s
   end.
 
+(** [strict]: the repaired code refuses float numbers that are not finite in the range's type (NaN, the
+    infinities, 1e39 as f32): they have no literal and made code generation panic.  [strict = false] is the
+    code before that repair (the [_old] instances below). *)
+Section Strict.
+Variable strict : bool.
+
 (** the [parse] closure of Range::new *)
-Definition parse_num (t : rtype) (tbl : ftable) (s : str) : res num :=
+Definition parse_num_g (t : rtype) (tbl : ftable) (s : str) : res num :=
   if ty_is_float t then
     match flookup tbl s with
-    | Some (Some v) => Ok v
+    | Some (Some v) => if negb strict || num_finite t v then Ok v else Err (RangeParse s)
     | Some None => Err (RangeParse s)
     | None => Unmodelled
     end
@@ -206,16 +212,16 @@ Definition str_fallback (s : str) : bool := str_eqb s s_us || str_eqb s s_dotdot
 Definition is_empty (s : str) : bool := match s with [] => true | _ => false end.
 
 (** the part of Range::new after the fallback and '|' tests; [s] is already trimmed *)
-Definition range_new_bounds (t : rtype) (tbl : ftable) (s : str) : res range :=
+Definition range_new_bounds_g (t : rtype) (tbl : ftable) (s : str) : res range :=
   match split_once s_dotdot s with
   | Some (start, e) =>
       let start := trim start in
-      bind (if is_empty start then Ok None else rmap Some (parse_num t tbl start)) (fun start =>
+      bind (if is_empty start then Ok None else rmap Some (parse_num_g t tbl start)) (fun start =>
       let e := trim e in
       bind (if is_empty e then Ok Unbounded
             else match strip_prefix [c_eq] e with
-                 | Some e' => rmap Included (parse_num t tbl (trim_start e'))
-                 | None => bind (parse_num t tbl e) (fun v =>
+                 | Some e' => rmap Included (parse_num_g t tbl (trim_start e'))
+                 | None => bind (parse_num_g t tbl e) (fun v =>
                              match range_end_bound t v with
                              | Some b => Ok b
                              | None => Err (InvalidBoundEnd s)
@@ -230,21 +236,21 @@ Definition range_new_bounds (t : rtype) (tbl : ftable) (s : str) : res range :=
           end
       | None => Ok (Bounds start e)
       end))
-  | None => rmap Exact (parse_num t tbl s)
+  | None => rmap Exact (parse_num_g t tbl s)
   end.
 
 (** Range::new on a piece produced by [split('|')] (it contains no '|') *)
-Definition range_new_piece (t : rtype) (tbl : ftable) (s : str) : res range :=
+Definition range_new_piece_g (t : rtype) (tbl : ftable) (s : str) : res range :=
   let s := trim s in
-  if str_fallback s then Ok Fallback else range_new_bounds t tbl s.
+  if str_fallback s then Ok Fallback else range_new_bounds_g t tbl s.
 
 (** Range::new *)
-Definition range_new (t : rtype) (tbl : ftable) (s : str) : res range :=
+Definition range_new_g (t : rtype) (tbl : ftable) (s : str) : res range :=
   let s := trim s in
   if str_fallback s then Ok Fallback
   else if existsb (N.eqb c_pipe) s then
-    bind (collect (range_new_piece t tbl) (split_all c_pipe s)) (fun l => Ok (flatten (Multiple l)))
-  else range_new_bounds t tbl s.
+    bind (collect (range_new_piece_g t tbl) (split_all c_pipe s)) (fun l => Ok (flatten (Multiple l)))
+  else range_new_bounds_g t tbl s.
 
 (* ------------------------------------------------------------------ serde level *)
 
@@ -260,28 +266,29 @@ Inductive jcount :=
 | COther.                 (* bool / null / map: no visitor method *)
 
 (** T::from_u64 / from_i64 / from_f64 *)
-Definition from_jnum (t : rtype) (n : jnum) : res range :=
+Definition from_jnum_g (t : rtype) (n : jnum) : res range :=
   match n with
-  | JU z fv | JI z fv => if ty_is_float t then Ok (Exact fv)
+  | JU z fv | JI z fv => if ty_is_float t then (if negb strict || num_finite t fv then Ok (Exact fv) else Err RangeNumberType)
                          else if in_ty t z then Ok (Exact (Some z)) else Err RangeNumberType
-  | JF fv => if ty_is_float t then Ok (Exact fv) else Err RangeNumberType
+  | JF fv => if ty_is_float t then (if negb strict || num_finite t fv then Ok (Exact fv) else Err RangeNumberType)
+             else Err RangeNumberType
   end.
 
 (** RangeSeed<T>: visit_str / visit_{u64,i64,f64} / visit_seq.
     visit_seq: [] is the fallback, one element is itself, otherwise Multiple(rest ++ [first]). *)
-Fixpoint parse_count (t : rtype) (tbl : ftable) (c : jcount) : res range :=
+Fixpoint parse_count_g (t : rtype) (tbl : ftable) (c : jcount) : res range :=
   match c with
-  | CStr s => range_new t tbl s
-  | CNum n => from_jnum t n
+  | CStr s => range_new_g t tbl s
+  | CNum n => from_jnum_g t n
   | CArr l =>
       match l with
       | [] => Ok Fallback
       | first :: rest =>
-          bind (parse_count t tbl first) (fun f =>
+          bind (parse_count_g t tbl first) (fun f =>
           bind ((fix go (l : list jcount) : res (list range) :=
                    match l with
                    | [] => Ok []
-                   | c :: r => bind (parse_count t tbl c) (fun x => bind (go r) (fun xs => Ok (x :: xs)))
+                   | c :: r => bind (parse_count_g t tbl c) (fun x => bind (go r) (fun xs => Ok (x :: xs)))
                    end) rest) (fun rs =>
           match rs with [] => Ok f | _ => Ok (Multiple (rs ++ [f])) end))
       end
@@ -289,8 +296,8 @@ Fixpoint parse_count (t : rtype) (tbl : ftable) (c : jcount) : res range :=
   end.
 
 (** RangeSeed::visit_seq applied to the tail of a [value, count, count ...] branch *)
-Definition parse_count_seq (t : rtype) (tbl : ftable) (l : list jcount) : res range :=
-  parse_count t tbl (CArr l).
+Definition parse_count_seq_g (t : rtype) (tbl : ftable) (l : list jcount) : res range :=
+  parse_count_g t tbl (CArr l).
 
 (** branch values: only what C04 needs of ParsedValue (text with {{ var }} interpolations) *)
 Inductive piece := PLit (s : str) | PVar (name : str).
@@ -320,26 +327,26 @@ Inductive jbranch :=
 | BOther.                                  (* anything else *)
 
 (** RangeStructSeed::visit_map *)
-Fixpoint parse_fields (t : rtype) (tbl : ftable) (fs : list jfield) (r : option range) (v : option pval)
+Fixpoint parse_fields_g (t : rtype) (tbl : ftable) (fs : list jfield) (r : option range) (v : option pval)
   : res (range * pval) :=
   match fs with
   | [] => match v with
           | Some v => Ok (match r with Some r => r | None => Fallback end, v)
           | None => Err SerdeMissingField
           end
-  | FCount c :: fs => bind (parse_count t tbl c) (fun x =>
-                        match r with Some _ => Err SerdeDuplicateField | None => parse_fields t tbl fs (Some x) v end)
+  | FCount c :: fs => bind (parse_count_g t tbl c) (fun x =>
+                        match r with Some _ => Err SerdeDuplicateField | None => parse_fields_g t tbl fs (Some x) v end)
   | FValue jv :: fs => bind (parse_value jv) (fun x =>
-                        match v with Some _ => Err SerdeDuplicateField | None => parse_fields t tbl fs r (Some x) end)
+                        match v with Some _ => Err SerdeDuplicateField | None => parse_fields_g t tbl fs r (Some x) end)
   | FUnknown :: _ => Err SerdeUnknownField
   end.
 
 (** RangeStructSeed<T> *)
-Definition parse_branch (t : rtype) (tbl : ftable) (b : jbranch) : res (range * pval) :=
+Definition parse_branch_g (t : rtype) (tbl : ftable) (b : jbranch) : res (range * pval) :=
   match b with
-  | BSeq v counts => bind (parse_value v) (fun v => bind (parse_count_seq t tbl counts) (fun r => Ok (r, v)))
+  | BSeq v counts => bind (parse_value v) (fun v => bind (parse_count_seq_g t tbl counts) (fun r => Ok (r, v)))
   | BSeqEmpty => Err SerdeInvalidLength
-  | BMap fs => parse_fields t tbl fs None None
+  | BMap fs => parse_fields_g t tbl fs None None
   | BOther => Err SerdeInvalidType
   end.
 
@@ -397,17 +404,32 @@ Definition check_deserialization := check_de has_fallback.
 Definition check_deserialization_old := check_de has_fallback_shallow.
 
 (** Ranges::from_serde_seq + deserialize_inner + validation *)
-Definition parse_decl_with (chk : rtype -> branches -> res unit) (tbl : ftable) (d : jdecl)
+Definition parse_decl_with_g (chk : rtype -> branches -> res unit) (tbl : ftable) (d : jdecl)
   : res (rtype * branches) :=
   bind (match d_first d with
         | FirstNone => Err EmptyRange
         | FirstType s => match type_of_string s with Some t => Ok (t, []) | None => Err InvalidRangeType end
-        | FirstBranch b => bind (parse_branch I32 tbl b) (fun x => Ok (I32, [x]))
+        | FirstBranch b => bind (parse_branch_g I32 tbl b) (fun x => Ok (I32, [x]))
         | FirstOther => Err SerdeInvalidType
         end) (fun '(t, first) =>
-  bind (collect (parse_branch t tbl) (d_rest d)) (fun rest =>
+  bind (collect (parse_branch_g t tbl) (d_rest d)) (fun rest =>
   let bs := first ++ rest in
   bind (chk t bs) (fun _ => Ok (t, bs)))).
+End Strict.
+
+Definition parse_num := parse_num_g true.
+Definition range_new_bounds := range_new_bounds_g true.
+Definition range_new_piece := range_new_piece_g true.
+Definition range_new := range_new_g true.
+Definition from_jnum := from_jnum_g true.
+Definition parse_count := parse_count_g true.
+Definition parse_count_seq := parse_count_seq_g true.
+Definition parse_fields := parse_fields_g true.
+Definition parse_branch := parse_branch_g true.
+Definition parse_decl_with := parse_decl_with_g true.
+(** before the non-finite repair *)
+Definition range_new_nonfinite_old := range_new_g false.
+Definition parse_decl_nonfinite_old := parse_decl_with_g false check_deserialization.
 Definition parse_decl := parse_decl_with check_deserialization.
 Definition parse_decl_old := parse_decl_with check_deserialization_old.
 
@@ -677,7 +699,7 @@ Definition numeral_in_ty (t : rtype) (n : numeral) : bool :=
   match n with
   | NInt sign _ _ => match numeral_val n with Some z => in_ty t z | None => false end
                       && (negb (sign =? 2)%N || ty_signed t)     (* "-0" is not an unsigned numeral *)
-  | NFloat _ _ => true
+  | NFloat _ v => num_finite t v        (* NaN / the infinities are not values a range can use *)
   end.
 (** the alternative is empty by construction: a..b with b <= a, a..=b with b < a, ..MIN *)
 Definition atom_degenerate (t : rtype) (a : atom) : bool :=
